@@ -74,6 +74,17 @@ def chk_data(frm, retx, ack, payload: bytes) -> Result:
         r.bad("C03:ref-decode-fails:DATA", f"{plan}: {e!r}")
     # wire: stuffing through _write_frame
     _wire_check(r, plan, f, ref, cancel=False)
+    # receive path: the reference wire bytes of an in-sequence frame come back up as exactly the payload
+    if frm == 0 and len(payload) <= 256:
+        proto, tr, up = make_host()
+        try:
+            proto.data_received(refash.wire(ref))
+            handed = [v for _, k, v in up.events if k == "data"]
+            if handed != [payload]:
+                r.bad("C03:receive-path-mismatch:DATA", f"{plan}: {len(refash.wire(ref))} wire bytes for a {len(payload)}-byte data field "
+                      f"handed up {[h.hex()[:40] for h in handed]}, host wrote {tr.all_bytes().hex()}")
+        except Exception as e:
+            r.bad("C03:receive-raises:DATA", f"{plan}: {e!r}")
     return r
 
 
@@ -415,7 +426,7 @@ def run(ctx):
                 ctx.check({"t": "wseq", "frames": [a, b]}, chk_wire_seq([a, b]), sample=(a == an[3] and b == an[11]))
     ctx.exhaustive["ordered pairs of ACK/NAK frames through one instance"] = True
 
-    lengths = [0, 1, 2, 3, 7, 8, 127, 128, 129, 200] if quick else list(range(0, 201))
+    lengths = [0, 1, 2, 3, 7, 8, 127, 128, 129, 200, 255, 256] if quick else list(range(0, 257))
     jobs = [lengths[i::16] for i in range(16)]
     ctx.parallel(_worker_data, [j for j in jobs if j])
 
@@ -431,8 +442,8 @@ def run(ctx):
     strat = st.fixed_dictionaries({
         "t": st.just("data"), "frm": st.integers(0, 7), "retx": st.integers(0, 1), "ack": st.integers(0, 7),
         "payload": st.one_of(
-            st.binary(max_size=200),
-            st.lists(st.sampled_from(list(RES) + [b ^ 0x20 for b in RES]), max_size=200).map(bytes),
+            st.binary(max_size=256),
+            st.lists(st.sampled_from(list(RES) + [b ^ 0x20 for b in RES]), max_size=256).map(bytes),
         ).map(bytes.hex),
     })
     ctx.search(strat, replay, max_examples=n)
